@@ -306,6 +306,8 @@ class ScalarPlugin(object):
 def default_externals():
     X = ExternalModels()
     X.plugins.append(ScalarPlugin())
-    from . import symlist
+    from . import symlist, symmap, mpmodel
     symlist.install(X)
+    symmap.install(X)
+    mpmodel.install(X)
     return X
